@@ -438,6 +438,18 @@ def enumerate_cases(tier, seed):
     for st_ in ("ForkingTCPServer", "ThreadingTCPServer"):
         for idle in (10, 39):
             yield {"mode": "idle-crowd", "servertype": st_, "idle": idle}
+    # the in-process / live seam on a fixed site that has one object of every kind, every object through every form
+    site = [["readme.txt", {"kind": "txt", "content": "hello\nworld\n"}], ["page.html", {"kind": "html", "title": "T", "content": "<html><title>T</title></html>\n"}],
+            ["pic.gif", {"kind": "bin", "content": "GIF89a\x00\x01"}], ["notes.txt.gz", {"kind": "gz", "content": "compressed\n" * 50}],
+            ["run.sh", {"kind": "exec"}], ["box.mbox", {"kind": "mbox", "subjects": ["one", "two"]}], ["md", {"kind": "maildir", "subjects": ["m"]}],
+            ["arc.zip", {"kind": "zip", "items": [["in.txt", {"kind": "txt", "content": "zipped\n"}]]}],
+            ["sub", {"kind": "dir", "items": [["deep.txt", {"kind": "txt", "content": "deep\n"}]]}],
+            ["mapped", {"kind": "map", "info": ["about"], "items": [["m.txt", {"kind": "txt", "content": "m\n"}]]}]]
+    forms = FORMS + ["head", "gbang", "waphdr"]
+    for st_ in ("ForkingTCPServer", "ThreadingTCPServer"):
+        for part in range(3):
+            reqs = [[t, f] for t in range(0, 16) for f in forms][part::3]
+            yield {"mode": "seam", "site": site, "servertype": st_, "reqs": reqs}
 
 
 def _check_idle_crowd(case, ctx):
